@@ -273,7 +273,7 @@ type c15case struct {
 }
 
 func c15run(r *report.Run) {
-	r.Rule("every digraph on n labelled packages (incl. self-imports up to n=4) x every root, executed by the real Load; plus location/file-split/poison-file configurations on small graphs; plus file selection: every set of <=2 files (and of 3 files over a reduced (thorough: the full) set of build lines) over 11 file names (a_test.go, b_test.go, test.go, latest.go, x_test.go.go, ...) x 13 //go:build lines (goat, !goat, ignore, linux, amd64 and combinations), as root and as dependency, the set of files that ran compared with the rule of the property; non-trivial = distinct (root, reachable subgraph, configuration) with at least one import edge")
+	r.Rule("every digraph on n labelled packages (incl. self-imports up to n=4) x every root, executed by the real Load; plus location/file-split/poison-file configurations on small graphs; plus file selection: every set of <=2 files (and of 3 files over a reduced (thorough: the full) set of build lines) over 11 file names (a_test.go, b_test.go, test.go, latest.go, x_test.go.go, ...) x 13 //go:build lines (goat, !goat, ignore, linux, amd64 and combinations; for six of the names also preceded by a comment block and a blank line), as root and as dependency, the set of files that ran compared with the rule of the property; non-trivial = distinct (root, reachable subgraph, configuration) with at least one import edge")
 	r.Assume("packages a<b<c<d<e only; graphs larger than the bound are not explored", "order of independent packages is not constrained (the property does not fix it)")
 	maxN, maxNself := 4, 4
 	cfgN := 2
@@ -467,6 +467,7 @@ var c15selBuild = []string{"", "goat", "!goat", "ignore", "linux", "!linux", "am
 type c15selFile struct {
 	Name  int `json:"name"`
 	Build int `json:"build"`
+	Pre   int `json:"pre,omitempty"` // 1: a comment line and a blank line precede the //go:build line
 }
 
 type c15selCase struct {
@@ -496,6 +497,9 @@ func c15selRun(c c15selCase) (problem, got string, files map[string]string) {
 		head := ""
 		if c15selBuild[f.Build] != "" {
 			head = "//go:build " + c15selBuild[f.Build] + "\n\n"
+		}
+		if f.Pre == 1 {
+			head = "// Copyright (c) the authors.\n// All rights reserved.\n\n" + head
 		}
 		files["s/"+name] = head + fmt.Sprintf("package s\n\nvar v%d = mark(\"var:%s\")\n\nfunc init() {\n\tmark(\"init:%s\")\n}\n", k, name, name)
 		if c15selIncluded(f) {
@@ -527,7 +531,10 @@ func c15selection(r *report.Run) {
 	var all []c15selFile
 	for n := range c15selNames {
 		for b := range c15selBuild {
-			all = append(all, c15selFile{n, b})
+			all = append(all, c15selFile{Name: n, Build: b})
+			if n < 6 {
+				all = append(all, c15selFile{Name: n, Build: b, Pre: 1})
+			}
 		}
 	}
 	var cases []c15selCase
@@ -554,7 +561,7 @@ func c15selection(r *report.Run) {
 				for _, bx := range b3 {
 					for _, by := range b3 {
 						for _, bz := range b3 {
-							cases = append(cases, c15selCase{Files: []c15selFile{{x, bx}, {y, by}, {z, bz}}})
+							cases = append(cases, c15selCase{Files: []c15selFile{{Name: x, Build: bx}, {Name: y, Build: by}, {Name: z, Build: bz, Pre: (x + y) % 2}}})
 						}
 					}
 				}
